@@ -4,6 +4,7 @@ import (
 	"bytes"
 	"encoding/binary"
 	"fmt"
+	"github.com/LiskHQ/lisk-engine/pkg/trie/rmt"
 	"os"
 	"sort"
 	"sync"
@@ -200,6 +201,16 @@ func (m *Monitor) onEventSync(n *Node, msg interface{}) {
 				if err := tx.Validate(); err != nil {
 					m.report("C03", "invalid-payload-appended", "statically-invalid-transaction", "%s appended block %d/%s whose transaction %d (%s) is not statically valid: %v", n.Name, e.Block.Header.Height, short(e.Block.Header.ID), i, short(tx.ID), err)
 				}
+			}
+			ids := make([][]byte, len(e.Block.Transactions))
+			for i, tx := range e.Block.Transactions {
+				ids[i] = tx.ID
+			}
+			if root := rmt.CalculateRoot(ids); !bytes.Equal(root, e.Block.Header.TransactionRoot) {
+				m.report("C03", "invalid-payload-appended", "transaction-root-mismatch", "%s appended block %d/%s whose transaction root %s is not the root %s of its %d transactions", n.Name, e.Block.Header.Height, short(e.Block.Header.ID), short(e.Block.Header.TransactionRoot), short(root), len(ids))
+			}
+			if root := blockchain.BlockAssets(e.Block.Assets).GetRoot(); !bytes.Equal(root, e.Block.Header.AssetRoot) {
+				m.report("C03", "invalid-payload-appended", "asset-root-mismatch", "%s appended block %d/%s whose asset root is not the root of its assets", n.Name, e.Block.Header.Height, short(e.Block.Header.ID))
 			}
 			if size > int(m.W.P.MaxTxSize) {
 				m.report("C03", "invalid-payload-appended", "payload-over-size-limit", "%s appended block %d/%s whose payload is %d bytes, the limit is %d", n.Name, e.Block.Header.Height, short(e.Block.Header.ID), size, m.W.P.MaxTxSize)
@@ -500,6 +511,25 @@ func (m *Monitor) checkDelete(n *Node, b *blockchain.Block) {
 	if tip := n.Chain.LastBlock(); tip == nil || !bytes.Equal(tip.Header.ID, b.Header.PreviousBlockID) {
 		m.report("C05", "cached-tip", "stale", "%s: after deleting block %d the cached tip is not its parent", n.Name, b.Header.Height)
 	}
+	// the ID index (database and cache) as it was before the block was applied: the removed block is not known by its ID
+	// any more, its parent is
+	da := n.Chain.DataAccess()
+	if h, err := da.GetBlockHeader(b.Header.ID); err == nil && h != nil {
+		m.report("C05", "id-index", "removed-block-still-served", "%s: after deleting block %d (%s) GetBlockHeader still returns it by its ID", n.Name, b.Header.Height, short(b.Header.ID))
+	}
+	if blk, err := da.GetBlock(b.Header.ID); err == nil && blk != nil {
+		m.report("C05", "id-index", "removed-block-still-served", "%s: after deleting block %d (%s) GetBlock still returns it by its ID", n.Name, b.Header.Height, short(b.Header.ID))
+	}
+	if hs, err := da.GetBlockHeaders([][]byte{b.Header.ID}); err == nil && len(hs) > 0 {
+		m.report("C05", "id-index", "removed-block-still-served", "%s: after deleting block %d (%s) GetBlockHeaders still returns it by its ID", n.Name, b.Header.Height, short(b.Header.ID))
+	}
+	if h, err := da.GetBlockHeader(b.Header.PreviousBlockID); err != nil || h == nil || h.Height+1 != b.Header.Height {
+		m.report("C05", "id-index", "parent-not-served", "%s: after deleting block %d its parent %s is not served by its ID (%v)", n.Name, b.Header.Height, short(b.Header.PreviousBlockID), err)
+	}
+	if h, err := da.GetBlockHeaderByHeight(b.Header.Height); err == nil && h != nil {
+		m.report("C05", "height-index", "removed-height-still-served", "%s: after deleting block %d GetBlockHeaderByHeight(%d) still returns %s", n.Name, b.Header.Height, b.Header.Height, short(h.ID))
+	}
+	simkit.Probe("c05_lookups_by_id_and_height_checked_after_delete")
 	want, ok := m.dumps[n.ID][parent.ID]
 	got := dumpDB(n)
 	m.dumps[n.ID][parent.ID] = got
